@@ -55,6 +55,45 @@ FStringFrom(s, i, env) ==
          ELSE LET rest == FStringFrom(s, i + 1, env) IN IF IsErr(rest) THEN rest ELSE VStr(<<s[i]>> \o rest.s)
     ELSE LET rest == FStringFrom(s, i + 1, env) IN IF IsErr(rest) THEN rest ELSE VStr(<<s[i]>> \o rest.s)
 
+\* ---- substitution is ONE left-to-right pass over the LITERAL -------------------------------------------
+\* Declarative reading of both substitutions (Syntax.md "String formatting": "the formatting works by replacing
+\* placeholders of type `@number@` with the corresponding argument"; "Format strings" are the "non-positional
+\* alternative", `s = f'int: @n@, string: @m@'`; str.format in docs/yaml/elementary/str.yml).  The placeholders are
+\* those of the string that is formatted.  The literal ALONE decides where its placeholders are: it is cut, left to right,
+\* into pieces that are either a reference (`@name@` for kind "f", `@digits@` for kind "n") or one character of plain
+\* text; the result is the concatenation of the texts of the pieces.  What a reference contributes is data: it is
+\* never looked at again - not for the name that was just replaced, not for another name of the same literal, and it
+\* cannot combine with the `@` characters that stand next to the placeholder in the literal.
+RECURSIVE PiecesFrom(_, _, _)
+PiecesFrom(s, i, kind) ==
+    IF i > Len(s) THEN <<>>
+    ELSE LET startOk == i + 1 <= Len(s) /\ (IF kind = "f" THEN IsIdStart(s[i + 1]) ELSE IsDigit(s[i + 1]))
+             j == IF kind = "f" THEN ScanIdent(s, i + 1) ELSE ScanDigits(s, i + 1)
+         IN IF s[i] = 64 /\ startOk /\ j <= Len(s) /\ s[j] = 64
+            THEN <<[ref |-> TRUE, cs |-> SubSeq(s, i + 1, j - 1)]>> \o PiecesFrom(s, j + 1, kind)
+            ELSE <<[ref |-> FALSE, cs |-> <<s[i]>>]>> \o PiecesFrom(s, i + 1, kind)
+Pieces(s, kind) == PiecesFrom(s, 1, kind)
+
+RECURSIVE ConcatStrs(_)
+ConcatStrs(vs) == IF vs = <<>> THEN <<>> ELSE vs[1].s \o ConcatStrs(Tail(vs))
+\* the written form of the pieces: nothing of the literal is lost or duplicated by cutting it
+RECURSIVE PiecesSource(_)
+PiecesSource(ps) == IF ps = <<>> THEN <<>>
+                    ELSE (IF ps[1].ref THEN <<64>> \o ps[1].cs \o <<64>> ELSE ps[1].cs) \o PiecesSource(Tail(ps))
+
+SubstPieces(ps, Look(_)) ==
+    LET texts == [p \in 1..Len(ps) |-> IF ps[p].ref THEN Look(ps[p].cs) ELSE VStr(ps[p].cs)]
+    IN IF AnyErr(texts) THEN FirstErr(texts) ELSE VStr(ConcatStrs(texts))
+
+FStringLook(env, name) == IF EnvHas(env, name) THEN Stringify(EnvGet(env, name)) ELSE Err
+FormatLook(args, ds) ==
+    LET numv == IF Len(ds) > 4 THEN -1 ELSE ParseBase(ds, 10, 0)
+    IN IF numv < 0 \/ numv >= Len(args) THEN Err ELSE Stringify(args[numv + 1])
+FStringDecl(s, env) == SubstPieces(Pieces(s, "f"), LAMBDA name : FStringLook(env, name))
+FormatDecl(s, args) == SubstPieces(Pieces(s, "n"), LAMBDA ds : FormatLook(args, ds))
+\* the same value, or failure on both sides (which of several failing pieces is reported is not part of the reference)
+SameOutcome(a, b) == a = b \/ (IsErr(a) /\ IsErr(b))
+
 \* ---- operators ---------------------------------------------------------------------------------------
 BoolAsInt(l, r) == l.k = "int" /\ r.k = "bool"
 
@@ -156,9 +195,14 @@ StrMethod(o, m, args) ==
            ELSE IF \E i \in 1..Len(args) : IntArg(args[i]) = "bool" THEN ErrBoolInt
            ELSE VStr(Substring(o.s, IF Len(args) >= 1 THEN args[1].n ELSE 0, IF Len(args) = 2 THEN args[2].n ELSE Len(o.s)))
       [] m = "format" -> FormatFrom(o.s, 1, args)
-      [] m \in {"version_compare", "splitlines"} -> Unspec
+      [] m = "splitlines" ->
+           IF args # <<>> THEN Err
+           ELSE IF SeqSet(o.s) \cap OtherLineBreaks # {} THEN Unspec
+           ELSE LET ls == TextLines(o.s) IN VArr([i \in 1..Len(ls) |-> VStr(ls[i])])
+      [] m = "version_compare" -> Unspec
       [] OTHER -> Err
 
+KwValsOf(kv) == [i \in 1..Len(kv) |-> kv[i][2]]
 RECURSIVE HasNested(_)
 HasNested(es) == \E i \in 1..Len(es) : es[i].k = "arr"
 
@@ -176,8 +220,27 @@ ArrMethod(o, m, args) ==
                     ix == args[1].n
                 IN IF ix < -len \/ ix >= len THEN (IF Len(args) = 2 THEN args[2] ELSE Err)
                    ELSE o.e[(IF ix < 0 THEN ix + len ELSE ix) + 1]
-      [] m \in {"slice", "flatten"} -> Unspec
+      [] m = "flatten" ->
+           IF args # <<>> THEN Err ELSE VArr(FlattenVals(o.e))
       [] OTHER -> Err
+
+\* array.slice(start, stop, step : n) - array.yml: start and stop are given both or not at all, negative indices count from
+\* the back, the step is not zero; with a negative step and no bounds the selection runs from the end to the beginning.
+\* Bounds outside the array are cut to it (test cases/common/56 array methods: slice(-9876543, 2), slice(1, 12, step : 2)).
+\* Explicit bounds together with a negative step have neither a worked example nor a pinned test: not determined.
+ArrSlice(o, args, kws) ==
+    LET ints == args \o KwValsOf(kws) IN
+    IF Len(kws) > 1 \/ (Len(kws) = 1 /\ kws[1][1] # "step") THEN Err
+    ELSE IF Len(args) > 2 THEN Err
+    ELSE IF \E i \in 1..Len(ints) : IntArg(ints[i]) = "bad" THEN Err
+    ELSE IF \E i \in 1..Len(ints) : IntArg(ints[i]) = "bool" THEN ErrBoolInt
+    ELSE IF Len(args) = 1 THEN Err
+    ELSE LET step == IF kws = <<>> THEN 1 ELSE kws[1][2].n
+             len == Len(o.e)
+         IN IF step = 0 THEN Err
+            ELSE IF step < 0 THEN (IF args # <<>> THEN Unspec ELSE VArr(StrideDown(o.e, len - 1, step)))
+            ELSE IF args = <<>> THEN VArr(StrideUp(o.e, 0, len, step))
+            ELSE VArr(StrideUp(o.e, ClampIdx(args[1].n, len), ClampIdx(args[2].n, len), step))
 
 DictMethod(o, m, args) ==
     CASE m = "has_key" -> IF NArgs(args, 1, 1) /\ AllStr(args) THEN VBool(DictHas(o, args[1].s)) ELSE Err
@@ -188,7 +251,9 @@ DictMethod(o, m, args) ==
       [] m = "keys" ->
            IF args # <<>> THEN Err
            ELSE LET ks == SortKeys({ o.e[i].s : i \in 1..Len(o.e) }) IN VArr([i \in 1..Len(ks) |-> VStr(ks[i])])
-      [] m = "values" -> Unspec
+      [] m = "values" ->                                    \* "sorted by the corresponding keys in ascending order"
+           IF args # <<>> THEN Err
+           ELSE LET ks == SortKeys({ o.e[i].s : i \in 1..Len(o.e) }) IN VArr([i \in 1..Len(ks) |-> DictGet(o, ks[i])])
       [] OTHER -> Err
 
 IntMethod(o, m, args, kws) ==
@@ -221,15 +286,25 @@ SubprojMethod(o, m, args) ==
       [] m = "found" -> IF args = <<>> THEN VBool(TRUE) ELSE Err
       [] OTHER -> Unspec
 
-Method(o, m, args, kws) ==
+\* Syntax.md "Argument flattening": "Meson takes the list of arguments and flattens all nested lists into one big
+\* list" - positional arguments that are arrays are flattened into the argument list (the default of the reference
+\* manual) except for the methods the reference marks `arg_flattening: false`: array.contains, array.get,
+\* dict.get, str.format (and get_variable of a subproject object).
+NoFlatten(o, m) == \/ o.k = "arr" /\ m \in {"contains", "get"}
+                   \/ o.k = "dict" /\ m = "get"
+                   \/ o.k = "str" /\ m = "format"
+                   \/ o.k = "subproj"
+MethodOn(o, m, args, kws) ==
     IF o.k = "int" THEN IntMethod(o, m, args, kws)
     ELSE IF o.k = "subproj" THEN (IF kws # <<>> THEN Err ELSE SubprojMethod(o, m, args))
+    ELSE IF o.k = "arr" /\ m = "slice" THEN ArrSlice(o, args, kws)
     ELSE IF kws # <<>> THEN Err
     ELSE CASE o.k = "str" -> StrMethod(o, m, args)
            [] o.k = "arr" -> ArrMethod(o, m, args)
            [] o.k = "dict" -> DictMethod(o, m, args)
            [] o.k = "bool" -> BoolMethod(o, m, args)
            [] OTHER -> Err
+Method(o, m, args, kws) == MethodOn(o, m, IF NoFlatten(o, m) THEN args ELSE FlattenVals(args), kws)
 
 \* ---- built-in functions that are part of the core language -------------------------------------------
 RECURSIVE RangeElems(_, _, _)
